@@ -131,9 +131,76 @@ def _history_async(rng, n_msgs, rank, p_msg=0.62):
             # the call's return: a refresh that reports success has made the range equal the spa's
             ev.append({"k": "got", "off": off, "len": ln, "ok": bool(ok)})
 
+        def do_msg_during_get(off, ln, ch):
+            """an unsolicited STATP arrives BETWEEN the segments of the answer to an outstanding refresh; its
+            positions lie outside the refreshed range (so the race of the protocol itself does not arise): it is
+            applied once and acknowledged like any other, and the refresh completes with its range"""
+            settle()
+            nsent, ntap = len(tr.sent), len(tap.log)
+            st_ = {"n": 0, "done": False}
+            saved = (s.net.s2c, s.net.on_event)
+
+            def s2c(reply, now, n):
+                if b"STATV" in reply:
+                    st_["n"] += 1
+                    return [s.net.latency + 0.004 * st_["n"]]
+                return None
+
+            def on_ev(kind, data, transport):
+                if saved[1]:
+                    saved[1](kind, data, transport)
+                if kind == "deliver" and transport is tr and b"STATV" in data and not st_["done"]:
+                    st_["done"] = True
+                    for pos, d in ch:
+                        sim_struct.replace_status_block_segment(pos, d)
+                    s.inject(s.peer.push_changes(s.client_parms(), ch), delay=0.001)
+
+            s.net.s2c, s.net.on_event = s2c, on_ev
+            try:
+                ok = s.run(spa.struct.get(
+                    spa._protocol,
+                    lambda: GeckoStatusBlockProtocolHandler.request(
+                        spa._protocol.get_and_increment_sequence_counter(False), off, ln, parms=spa.sendparms)))
+            finally:
+                s.net.s2c, s.net.on_event = saved
+            if not st_["done"]:
+                raise env.MachineryError("no refresh segment was delivered")
+            for _ in range(40):
+                if any(e["k"] == "pop" and "Partial" in e["by"] for e in tap.log[ntap:]):
+                    break
+                s.advance(0.1)
+            s.advance(0.05)
+            inst = w.take()
+            applied = [{"pos": x["pos"], "data": x["data"]} for x in inst if "Partial" in x["by"]]
+            msg = {"k": "msg", "ch": [{"pos": p, "data": list(d)} for p, d in ch], "applied": applied,
+                   "acks": _acks(d for (_, d, _) in tr.sent[nsent:]), "during_refresh": True,
+                   "queue": [{k: (v if k != "data" else v[:24].decode("latin1")) for k, v in e.items()}
+                             for e in tap.log[ntap:]][:14]}
+            placed = False
+            for x in inst:
+                if "Partial" in x["by"]:
+                    if not placed:
+                        ev.append(msg)
+                        placed = True
+                else:
+                    ev.append({"k": "refresh", "off": x["pos"], "data": x["data"]})
+            if not placed:
+                ev.append(msg)
+            ev.append({"k": "got", "off": off, "len": ln, "ok": bool(ok)})
+
         for i in range(n_msgs):
             r = rng.random()
-            if r < 0.04 or i == 3:
+            if i in (5, 11) or r > 0.97:
+                ln = rng.choice([40, 78, 100, 200])
+                off = rng.randrange(0, 1024 - ln)
+                # (the simulator answers in whole 39-byte segments: the bytes actually fetched may exceed `ln`)
+                outside = [p for p in list(range(0, off - 1)) + list(range(off + -(-ln // 39) * 39, 1022))]
+                if not outside:
+                    continue
+                ch = [(rng.choice(outside), bytes([rng.randrange(256), rng.randrange(256)]))
+                      for _ in range(rng.choice([1, 2, 3]))]
+                do_msg_during_get(off, ln, ch)
+            elif r < 0.04 or i == 3:
                 # a value that comes back: refresh, reported change, unreported change back, the
                 # same refresh again (byte-identical to the first)
                 pos = rng.choice(hot)
